@@ -817,7 +817,7 @@ impl ObjectWrite for Date {
             hour, minute, second,
             tz_hour, tz_minute, rel,
         } = *self;
-        if year > 9999 || day > 99 || hour > 23 || minute >= 60 || second >= 60 || tz_hour >= 24 || tz_minute >= 60 {
+        if year > 9999 || month > 99 || day > 99 || hour > 23 || minute >= 60 || second >= 60 || tz_hour >= 24 || tz_minute >= 60 {
             bail!("not a valid date");
         }
         let o = match rel {
